@@ -20,7 +20,9 @@ CHECKS = {
         text="Structural identity of the emitted expression with the law tree built from the reacting species' own mass number, binding "
              "energy (explicit > user table > RATE12 table), yield, charge class and the grain's group-suffixed symbols means equality for "
              "all physical parameters; 5 models x 9 types x species x groups are covered, requests a model does not implement must be "
-             "refused, and reads / updates of the binding energy on one object must follow the lookup order.",
+             "refused, reads / updates of the binding energy on one object must follow the lookup order (values to 1/1000 K, charged ices, the "
+             "constant the generated code defines), and the grain density each population's rates use must be that population's own (hh93) or "
+             "a run-time parameter (rr07).",
         note="law trees are my transcription of HH93 and of UCLCHEM v1.3's RR07 routines in the generator's operand order (papers not "
              "available offline): where I cannot vouch for a constant independently the tree pins the current behaviour"),
     "C20": dict(level="model_checking", design_ref="DESIGN.md §4 C20, §11, §12",
@@ -75,7 +77,8 @@ CHECKS = {
         text="Structural identity of the emitted expression with the law tree means equal value for ALL temperatures, extinctions, "
              "ionisation rates and coefficient values; the strict parser rejects operator fusion and stray tokens (valid C); all 34 "
              "(format, code) pairs x {neg, zero, pos}^3 x magnitude classes incl. 1e+300 and 5e-324 are covered (exhaustive over the sign "
-             "classes in the thorough tier).",
+             "classes in the thorough tier); every emitted reaction has its rate statement, and the table searches of the shielding functions "
+             "the photoreaction laws call reach the last cell of their axis.",
         note="law trees are my transcription of the published laws in the generator's operand order; a structural mismatch is re-examined "
              "numerically against closed-form laws: value-equal => stale table (exit 2), else VIOLATION"),
     "C18": dict(level="model_checking", design_ref="DESIGN.md §4 C18, §11, §12",
